@@ -147,6 +147,8 @@ def c01(ctx):
     nh, ln = (12, 60) if ctx.quick() else (120, 120)
     sv(binary, ["store", "--mode", "random", "--seed", ctx.seed, "--hist", nh, "--len", ln, "--out", tr2])
     store_validate(ctx, tr2, "random history")
+    if not ctx.quick() and os.path.getsize(tr2) > 100_000_000:
+        os.remove(tr2)      # hundreds of MB; the chunks with unexplained events, if any, are kept by store_validate
     # (4) exhaustion of the 16-bit term index
     tr3 = os.path.join(ctx.traces, "exhaust.ndjson")
     sv(binary, ["store", "--mode", "exhaust", "--out", tr3])
